@@ -9,7 +9,7 @@ from ..norm import Normalizer, NormError
 from ..exc import EscapeAnalysis
 from ..model import BUILTIN_EXC, Program
 from ._c16c17kit import *
-from ._kit_c16 import Exec, Evaluator, EvalRaised, BoolSpace, St, Closure, txt, src_of, mk_not, mk_and, mk_or, qual_name, contexts, flat_facts, callable_normal_form
+from ._kit_c16 import Exec, Evaluator, EvalRaised, BoolSpace, St, Closure, txt, src_of, mk_not, mk_and, mk_or, qual_name, contexts, flat_facts, callable_normal_form, free_names, Frame, RAISE, raise_leaf, tree_of
 from ._kit_c16 import _BUILTINS as EVAL_BUILTINS
 
 R = Rules(
@@ -31,7 +31,12 @@ R = Rules(
         "documented class before anything is stored, a non-CoAP scheme stores Proxy-Uri and nothing else, the port is read "
         "(hence validated) and remote, Uri-Path and Uri-Query are set on every accepted CoAP path; (c) Uri-Path / Uri-Query are "
         "the strictly percent-decoded split('/')[1:] / split('&') of the component and empty exactly for '', '/' / '', the "
-        "writer joins quoted segments with the same separators, the quoting function keeps exactly the bytes of its safe set, and "
+        "writer -- over all outcomes of get_request_uri, a constant component such as '/' being admitted for exactly the segment lists its "
+        "path condition selects; loops with several / conditional appends, string accumulation and join idioms are given their closed form "
+        "by the executor -- composes, for segment lists with empty and reserved-character segments, exactly the quoted segments joined with "
+        "the same separators (checked once with tagging quote functions and once with the specified quoting, so post-processing of the "
+        "joined text is seen), the quoting function (nested function, lambda, functools.partial of a helper, with or without a precomputed "
+        "per-byte table) keeps exactly the bytes of its safe set, and "
         "the safe sets never contain the separator, '%', '?', '#'; (d) Uri-Host is the strictly percent-decoded host passed "
         "through the ASCII lower-casing table and is stored exactly when not opted out and the IP-literal predicate (bracketed, "
         "or three dots / digits and dots only / every label <= 255) is false, the remote keeps scheme and netloc; (e) hostportjoin "
@@ -259,6 +264,15 @@ class SetterModel:
                 d = self._const(e.args[0])
                 if isinstance(d, (str, set, frozenset, list, tuple)) and set(d) == DIGITS_DOT:
                     return ("atom", "IPLIT:digits")
+        # a comparison of something COUNTED over the host (`len([x for x in H.split('.') if ok(x)]) == 4`, a counter
+        # incremented in a loop, `sum(..)`): the atoms of the reference predicate are quantified statements, and a count
+        # equals one only relative to the number of labels -- not decided here; an uninterpreted atom would surface
+        # as a bogus counterexample, so the shape is refused instead
+        if isinstance(e, ast.Compare):
+            for side in [e.left] + list(e.comparators):
+                for n in ast.walk(side):
+                    if isinstance(n, (ast.ListComp, ast.GeneratorExp, ast.SetComp)) and any(self.comp(x) in ("hostname", "netloc") for g in n.generators for x in ast.walk(g.iter)):
+                        raise AnalysisError("set_request_uri: a condition compares a count / aggregate over the host (`%s`): outside the vocabulary of the IP-literal predicate" % txt(e, 90))
         return None
 
     @staticmethod
@@ -417,8 +431,10 @@ def _int_label_lemma(ctx, M):
                 for call, facts, binders in contexts(e, is_int):
                     rec = occ.setdefault(id(src_of(call)), [src_of(call), True])
                     arg = call.args[0]
-                    ok = False
-                    if isinstance(arg, ast.Name) and binders and binders[-1][0] is not None:
+                    # an operand known true that is the constant False (a flag the path has decided, substituted into
+                    # an `and`): the call is not evaluated on this path at all
+                    ok = any(isinstance(fe, ast.Constant) and bool(fe.value) != pol for fe, pol in flat_facts(list(prefix) + list(facts)))
+                    if not ok and isinstance(arg, ast.Name) and binders and binders[-1][0] is not None:
                         tgt, it = binders[-1]
                         if isinstance(tgt, ast.Name) and tgt.id == arg.id and isinstance(it, ast.Call) and isinstance(it.func, ast.Attribute) and it.func.attr == "split" \
                                 and len(it.args) == 1 and not it.keywords and M._const(it.args[0]) == ".":
@@ -478,6 +494,27 @@ def _origin_node(fi, esc):
     return None
 
 
+def _total_star_unpack(node):
+    """`a, *rest = S.split(sep)` (at most one plain target besides the starred one, a constant non-empty separator, S a
+    plain name / attribute chain): str.split with a separator returns at least one element, so the unpacking cannot
+    fail and nothing else in the statement can raise ValueError.  (The escape analysis tabulates every tuple-unpacking
+    of a split() as a ValueError site and has no exemption hook for it: engine limitation, worked around here.)"""
+    if not (isinstance(node, ast.Assign) and len(node.targets) == 1 and isinstance(node.targets[0], (ast.Tuple, ast.List))):
+        return False
+    elts = node.targets[0].elts
+    if sum(isinstance(x, ast.Starred) for x in elts) != 1 or len(elts) > 2:
+        return False
+    if not all(isinstance(x.value if isinstance(x, ast.Starred) else x, ast.Name) for x in elts):
+        return False
+    v = node.value
+    if not (isinstance(v, ast.Call) and isinstance(v.func, ast.Attribute) and v.func.attr in ("split", "rsplit") and chain(v.func.value) and not v.keywords and 1 <= len(v.args) <= 2):
+        return False
+    sep = v.args[0]
+    if not (isinstance(sep, ast.Constant) and isinstance(sep.value, str) and sep.value):
+        return False
+    return len(v.args) == 1 or (isinstance(v.args[1], ast.Constant) and isinstance(v.args[1].value, int))
+
+
 @R.clause("C16.a", "escape(set_request_uri) is contained in {MalformedUrlError, IncompleteUrlError}")
 def a(ctx):
     prog = ctx.prog
@@ -520,6 +557,9 @@ def a(ctx):
         ofi = prog.funcs.get("aiocoap." + e.func)
         ctx.need(ofi is not None, "origin function %s of an escape is not in the program model" % e.func)
         node = _origin_node(ofi, e)
+        if e.cls == "ValueError" and _total_star_unpack(node):
+            ctx.note("`%s`: a starred unpacking of str.split(sep) cannot fail (at least one element)" % stmt_text(node))
+            continue
         ok = _is_url_error(prog, e.cls)
         n_allowed += ok
         ctx.ob("an exception leaving set_request_uri is a documented URL error", ok, ofi, node if node is not None else ofi.node,
@@ -784,35 +824,74 @@ def _check_quote_factory(ctx, qf):
     what = "quote_factory(S) keeps exactly the bytes of S and percent-encodes every other UTF-8 byte"
     safes = sorted({v[0] for v in qf.values() if isinstance(v[0], str)}) + ["", "aZ%/", "".join(chr(i) for i in range(0x21, 0x7F))]
     samples = _utf8_cover()
+    covered = {safe: False for safe in safes}
     for o in outs:
         rv = o.end[1] if o.end is not None and o.end[0] == "return" else None
+        ctx.need(rv is not None, "quote_factory returns nothing on some path")
         clo = getattr(rv, "_closure", None) if isinstance(rv, ast.Name) else None
-        if clo is None and isinstance(rv, ast.Lambda):
-            # a lambda: its body is already closed over the factory's parameter (the factory's locals were substituted)
-            la = rv.args
-            ctx.need(len(la.args) == 1 and not (la.posonlyargs or la.kwonlyargs or la.defaults or la.vararg or la.kwarg), "quote_factory returns a lambda of unexpected signature")
-            qnode, qparam, V, cenv_exprs, construct = src_of(rv), la.args[0].arg, rv.body, {}, "quote_factory.<lambda>"
-        else:
-            ctx.need(clo is not None, "quote_factory does not return a nested function: `%s`" % (txt(rv, 80) if rv is not None else None))
+        cenv_exprs = {}
+        if clo is not None:
+            # a nested function: its outcomes as one expression (several returns -> a tree of conditional expressions)
             q = clo.fi
             qp = params(q)
             ctx.need(len(qp) == 1 and not q.node.args.kwonlyargs and not q.node.args.defaults, "quote_factory's nested function signature changed")
+            for d_ in q.node.decorator_list:
+                # memoisation does not change the function computed (the key is the argument, the closure is fixed)
+                dn = qual_name(prog, fi.module, d_.func if isinstance(d_, ast.Call) else d_)
+                ctx.need(dn in ("functools.lru_cache", "functools.cache"), "quote_factory's nested function is decorated with something other than a functools cache: %s" % txt(d_, 60))
             construct = "quote_factory.<locals>.%s" % q.name
             qnode, qparam, cenv_exprs = q.node, qp[0], clo.env
             inner = ex.run(q, binding={k: v for k, v in clo.env.items() if isinstance(v, Closure)})
-            inner_ok = [i for i in inner if i.normal]
-            shape = len(inner) == 1 and len(inner_ok) == 1 and not inner[0].exceptional and not inner[0].stores() and inner[0].end[0] == "return" and inner[0].end[1] is not None
-            if not shape:
+            if any(i.exceptional or i.stores() or "partial" in i.flags for i in inner):
                 ctx.ob(what, False, fi, qnode, construct=construct,
-                       detail="the quote function has %d outcome(s) (exception handlers, stores or several returns): its result depends on more than the argument and the safe set" % len(inner))
+                       detail="the quote function has exception handlers or stores: its result depends on more than the argument and the safe set")
                 continue
-            V = inner[0].end[1]
+            items = []
+            for i in inner:
+                if i.end is not None and i.end[0] == "raise":
+                    leaf = raise_leaf(i.end[1] or "?")
+                else:
+                    leaf = i.end[1] if i.end is not None and i.end[0] == "return" and i.end[1] is not None else ast.Constant(value=None)
+                items.append((i.conds(), leaf))
+            V = tree_of(items)
+            ctx.need(V is not None, "quote_factory's nested function has no decision-tree form")
+        elif isinstance(rv, ast.Lambda):
+            # a lambda: its body is already closed over the factory's parameter (the factory's locals were substituted)
+            la = rv.args
+            ctx.need(len(la.args) == 1 and not (la.posonlyargs or la.kwonlyargs or la.defaults or la.vararg or la.kwarg), "quote_factory returns a lambda of unexpected signature")
+            qnode, qparam, V, construct = src_of(rv), la.args[0].arg, rv.body, "quote_factory.<lambda>"
+        else:
+            # any other callable value (functools.partial(f, table), a module-level function, ...): what it returns when
+            # applied to one argument, with package helpers that are not anchors executed in place
+            qparam = "__input"
+            fr = Frame(fi, 0, frozenset({fi.qn}), ex._locals_of(fi))
+            app = ast.Call(func=rv, args=[local_name(qparam)], keywords=[])
+            V = ex.clone(ex._simplify_call(app, fr), {}, fr)
+            qnode, construct = src_of(o.end[2]) if o.end[2] is not None else fi.node, "quote_factory: returned callable"
         bad = None
+        needed = free_names(V)
+        raiser = lambda cls: (_ for _ in ()).throw(RuntimeError("raises %s" % cls))
+        mine = []
         for safe in safes:
+            # does this outcome of the factory apply to the safe set?  (conditions the evaluator cannot decide stay open)
+            applies = True
+            for ce, pol in o.conds():
+                try:
+                    if bool(ev.ev(ce, fi.module, {S: safe})) != pol:
+                        applies = False
+                        break
+                except (NormError, EvalRaised):
+                    pass
+            if applies:
+                mine.append(safe)
+                covered[safe] = True
+        for safe in mine:
             cenv = {}
             try:
                 for k, v in cenv_exprs.items():
-                    if isinstance(v, ast.AST) and k != S:
+                    # only what the quote function reads: other locals of the factory (loop variables, temporaries of
+                    # the table construction) are dead once it returns
+                    if isinstance(v, ast.AST) and k != S and k in needed:
                         cenv[k] = ev.ev(v, fi.module, {S: safe})
             except EvalRaised as ex_:
                 if any(ord(c) >= 128 for c in safe):
@@ -822,6 +901,7 @@ def _check_quote_factory(ctx, qf):
             except NormError as ex_:
                 raise AnalysisError("C16.c: quote_factory: a closure variable is outside the evaluator's vocabulary: %s" % ex_)
             cenv[S] = safe
+            cenv[RAISE] = raiser
             for s in samples:
                 env = dict(cenv)
                 env[qparam] = s
@@ -840,13 +920,17 @@ def _check_quote_factory(ctx, qf):
             if bad:
                 break
         ctx.ob(what, bad is None, fi, qnode, detail=bad or "evaluated on %d strings covering every UTF-8 byte value for %d safe sets" % (len(samples), len(safes)), construct=construct)
+    missing = [safe for safe in safes if not covered[safe] and any(v[0] == safe for v in qf.values())]
+    ctx.ob("quote_factory returns a quote function for the safe sets in use", not missing, fi, fi.node, detail=("no normal path for safe set %r" % missing[0][:30]) if missing else None,
+           construct="quote_factory: accepts the safe sets in use")
 
 
-def _leaf_abstract(e, is_const, known_callee):
+def _leaf_abstract(e, is_const, known_callee, leaves=None):
     """Replace the maximal sub-expressions the evaluator has no value for -- name / attribute / subscript chains that
     are neither constants, nor callees, nor comprehension variables, and calls of functions outside its vocabulary --
-    by placeholder locals.  -> (expression, {placeholder: original expr})"""
-    leaves = {}
+    by placeholder locals.  -> (expression, {placeholder: original expr}); `leaves` may be a table {placeholder:
+    (dump, expr)} shared by several expressions, so that the same sub-expression gets the same placeholder in all."""
+    leaves = {} if leaves is None else leaves
 
     def leaf(n):
         k = dump(n)
@@ -911,30 +995,111 @@ def _leaf_abstract(e, is_const, known_callee):
     return rec(e, set()), {k: v[1] for k, v in leaves.items()}
 
 
-SEGMENT_LISTS = [[], ["a"], ["a", "b"], ["", "a"], ["a", ""], ["", ""], ["x", "y", "z", "", "u", "v", "w"]]
+SEGMENT_LISTS = [[], ["a"], ["a", "b"], ["", "a"], ["a", ""], ["", ""], ["x", "y", "z", "", "u", "v", "w"],
+                 [""], ["/"], ["&"], ["a/b", "?&=#", "%41", "\u00e9 x", "+;"], ["", "", ""]]
 
 
-def _composition(ctx, ev, gfi, e, qf):
-    """Evaluate the expression passed to urlunparse as path / query for segment lists of several lengths, with the quote
-    functions of message.py replaced by tagging functions.  -> (results per list, expression of the segment source) ."""
-    ae, leaves = _leaf_abstract(e, lambda n: ev.try_ev(n, gfi.module, {}, default=_NOVAL) is not _NOVAL, lambda f: f.id in qf or f.id in EVAL_BUILTINS)
-    ctx.need(len(leaves) >= 1, "get_request_uri: a composed component does not depend on any segment list: `%s`" % txt(e, 100))
-    env0 = {}
-    for name in qf:
-        env0[name] = (lambda s, _n=name: "\x02%s\x03%s\x04" % (_n, s))
-    res = []
-    for xs in SEGMENT_LISTS:
-        env = dict(env0)
-        for leaf in leaves:  # every source of segments stands for the same list
-            env[leaf] = tuple(xs)
-        try:
-            v = ev.ev(ae, gfi.module, env)
-        except EvalRaised as ex:
-            v = "<raises %r>" % (ex.exc,)
-        except NormError as ex:
-            raise AnalysisError("C16.c: get_request_uri: composed component `%s` is outside the evaluator's vocabulary: %s" % (txt(e, 100), ex))
-        res.append(v)
-    return res, list(leaves.values())
+class _Composition:
+    """The path (or query) component get_request_uri passes to urlunparse, as a function of the segment list.
+
+    One *case* per outcome of the summarised function: the expression in the component's slot and the path condition.
+    Both are abstracted over their leaves (the maximal sub-expressions the evaluator has no value for); the leaves of
+    the slots are the *sources of segments* -- every one of them stands for the same list -- and a condition of the
+    path is evaluated when it is closed over the sources of its own case (for a case with a constant slot, e.g. the
+    '/' of an empty path: over the sources of the component), so `"".join(parts) or "/"`, `J if parts else "/"`,
+    `if not segments: path = "/"` with an early assignment, ... are the same function.  Conditions about anything
+    else are left open (the case applies for every list)."""
+
+    def __init__(self, ctx, ev, gfi, qf, comp):
+        self.ctx, self.ev, self.gfi, self.qf, self.comp = ctx, ev, gfi, qf, comp
+        self.table = {}  # placeholder -> (dump, expr), shared by all expressions of the component
+        self.cases = []
+        # two readings of the quote functions: tagging (which function quotes which segment, how the quoted segments are
+        # arranged) and the specified quoting itself (what text results: anything done to the joined text is visible)
+        self.env0 = {"tag": {name: (lambda s, _n=name: "\x02%s\x03%s\x04" % (_n, s)) for name in qf},
+                     "real": {name: (lambda s, _safe=v[0]: _spec_quote(_safe, s)) for name, v in qf.items() if isinstance(v[0], str)}}
+        self._cache = {}
+
+    def _abstract(self, e):
+        ae, _ = _leaf_abstract(e, lambda n: self.ev.try_ev(n, self.gfi.module, {}, default=_NOVAL) is not _NOVAL, lambda f: f.id in self.qf or f.id in EVAL_BUILTINS, self.table)
+        used = {n.id for n in ast.walk(ae) if isinstance(n, ast.Name) and n.id in self.table}
+        return ae, used
+
+    def add(self, o, slot, node):
+        ae, used = self._abstract(slot)
+        conds = []
+        for e, pol in o.conds():
+            ce, cused = self._abstract(e)
+            if cused:
+                conds.append((ce, pol, cused))
+        self.cases.append({"o": o, "slot": slot, "aslot": ae, "leaves": used, "conds": conds, "node": node, "results": {}, "real": {}})
+
+    def _eval(self, ae, xs, mode="tag"):
+        d = getattr(ae, "_dump", None)
+        if d is None:
+            d = dump(ae)
+            try:
+                ae._dump = d
+            except AttributeError:
+                pass
+        k = (d, tuple(xs), mode)
+        if k not in self._cache:
+            env = dict(self.env0[mode])
+            for leaf in self.table:  # every source of segments stands for the same list
+                env[leaf] = tuple(xs)
+            try:
+                self._cache[k] = ("ok", self.ev.ev(ae, self.gfi.module, env))
+            except EvalRaised as ex:
+                self._cache[k] = ("raise", ex.exc)
+            except NormError as ex:
+                self._cache[k] = ("?", str(ex))
+        return self._cache[k]
+
+    def run(self):
+        ctx, comp = self.ctx, self.comp
+        sources = set()
+        for c in self.cases:
+            sources |= c["leaves"]
+        ctx.need(len(sources) >= 1, "get_request_uri: the composed %s does not depend on any segment list: `%s`" % (comp, txt(self.cases[0]["slot"], 100)))
+        for c in self.cases:
+            scope = c["leaves"] or sources
+            c["decided"] = [(ce, pol) for ce, pol, used in c["conds"] if used <= scope]
+            # a constant component is right for some segment lists only (the '/' of an empty path): the rule must be
+            # able to tell for which, i.e. some condition of its path has to be about the segments
+            ctx.need(bool(c["leaves"]) or bool(c["decided"]), "get_request_uri: constant %s component `%s` under conditions the rule cannot relate to the segment list (%s)" % (comp, txt(c["slot"], 60), c["o"].describe()[:300]))
+        for xs in SEGMENT_LISTS:
+            hit = 0
+            for c in self.cases:
+                applies = True
+                for ce, pol in c["decided"]:
+                    r = self._eval(ce, xs, "real")  # (a condition on quoted text sees the text, not the tags)
+                    if r[0] == "ok" and bool(r[1]) != pol:
+                        applies = False
+                        break
+                if not applies:
+                    continue
+                hit += 1
+                r = self._eval(c["aslot"], xs)
+                if r[0] == "?":
+                    raise AnalysisError("C16.c: get_request_uri: composed component `%s` is outside the evaluator's vocabulary: %s" % (txt(c["slot"], 100), r[1]))
+                c["results"][tuple(xs)] = r[1] if r[0] == "ok" else "<raises %r>" % (r[1],)
+                r = self._eval(c["aslot"], xs, "real")
+                c["real"][tuple(xs)] = r[1] if r[0] == "ok" else "<%s %r>" % (r[0], r[1])
+            ctx.need(hit > 0, "get_request_uri: no path of the function composes the %s of the segments %r" % (comp, xs))
+        return self.cases
+
+
+def _tags(v):
+    out = []
+    if isinstance(v, str):
+        i = v.find("\x02")
+        while i >= 0:
+            j = v.find("\x03", i)
+            if j < 0:
+                break
+            out.append(v[i + 1:j])
+            i = v.find("\x02", j)
+    return out
 
 
 @R.clause("C16.c", "separators are never in a safe set; split and join separators of set_request_uri / get_request_uri agree")
@@ -998,49 +1163,62 @@ def c(ctx):
             ctx.ob(WHAT[comp][cat], not bad, sfi, bad[0][0] if bad else first_node,
                    detail=("%s = %r gives %r, expected %r" % (comp, bad[0][1], bad[0][2][1], bad[0][3][1])) if bad else "%d evaluation(s)" % covered[cat],
                    construct="opt.%s from %s: %s" % (opt, comp, cat))
-    # --- writer
+    # --- writer: per component, the composed text as a function of the segment list, over all outcomes that
+    # end in a composition of the URI from its components
     gfi = ctx.prog.func(GET)
     gex = Exec(ctx.prog)
     gev = Evaluator(ctx.prog)
     gouts = gex.run(gfi)
-    nsites = 0
-    seen = set()
+    comps = {"path": _Composition(ctx, gev, gfi, qf, "path"), "query": _Composition(ctx, gev, gfi, qf, "query")}
     for o in gouts:
         if o.end is None or o.end[0] != "return" or not isinstance(o.end[1], ast.Call):
             continue
-        call = o.end[1]
-        slots = _unparse_slots(ctx, gfi, call)
+        slots = _unparse_slots(ctx, gfi, o.end[1])
         if slots is None:
             continue
-        for comp, slot, rfc_sep, others in (("path", slots["path"], "/", "?#%"), ("query", slots["query"], "&", "#%")):
-            k = (comp, dump(slot))
-            if k in seen:
-                continue
-            seen.add(k)
-            node = src_of(o.end[2]) if o.end[2] is not None else gfi.node
-            res, src = _composition(ctx, gev, gfi, slot, qf)
-            # which quote function tags the single segment "a"?
-            one = res[1]
-            qname = None
-            if isinstance(one, str) and one.count("\x02") == 1 and "\x03a\x04" in one:
-                qname = one[one.index("\x02") + 1:one.index("\x03")]
-            ctx.need(qname in qf, "get_request_uri: %s segments are not quoted by a quote_factory product of message.py: `%s`" % (comp, txt(slot, 90)))
+        node = src_of(o.end[2]) if o.end[2] is not None else gfi.node
+        for comp in comps:
+            comps[comp].add(o, slots[comp], node)
+    nsites = 0
+    for comp, rfc_sep, others in (("path", "/", "?#%"), ("query", "&", "#%")):
+        C = comps[comp]
+        if not C.cases:
+            continue
+        nsites += 1
+        cases = C.run()
+        bad = None
+        qnames = []
+        for cs in cases:
+            cs["tags"] = sorted({t for v in cs["results"].values() for t in _tags(v)})
+            for t in cs["tags"]:
+                if t not in qnames:
+                    qnames.append(t)
+        # (same requirement as before the cases were introduced: when no segment reaches the URI through a product of
+        # quote_factory the composition is outside the rule's vocabulary)
+        ctx.need(len(qnames) >= 1 and all(q in qf and isinstance(qf[q][0], str) for q in qnames),
+                 "get_request_uri: %s segments are not quoted by a quote_factory product of message.py with a constant safe set: `%s`" % (comp, txt(cases[0]["slot"], 90)))
+        for cs in cases:
+            # the function this case quotes with; a case that shows none (constant component, segments passed unquoted) is
+            # measured against the component's
+            qname = cs["tags"][0] if cs["tags"] else qnames[0]
             tag = lambda s: "\x02%s\x03%s\x04" % (qname, s)
-            bad = None
-            for xs, got in zip(SEGMENT_LISTS, res):
-                if comp == "path":
-                    wants = ["".join("/" + tag(x) for x in xs)] + (["/"] if not xs else [])  # an empty path may be written '' or '/'
-                else:
-                    wants = ["&".join(tag(x) for x in xs)]
-                if got not in wants:
-                    bad = "segments %r compose to %r, expected %r" % (xs, _untag(got), _untag(wants[-1]))
-                    break
-            nsites += 1
+            real = lambda s: _spec_quote(qf[qname][0], s)
+            for xs in SEGMENT_LISTS:
+                if tuple(xs) not in cs["results"]:
+                    continue
+                for got, q in ((cs["results"][tuple(xs)], tag), (cs["real"][tuple(xs)], real)):
+                    if comp == "path":
+                        wants = ["".join("/" + q(x) for x in xs)] + (["/"] if not xs else [])  # an empty path may be written '' or '/'
+                    else:
+                        wants = ["&".join(q(x) for x in xs)]
+                    if got not in wants and bad is None:
+                        bad = (cs, "segments %r compose to %r, expected %r" % (xs, _untag(got), _untag(wants[-1])))
+        shown = bad[0] if bad else cases[0]
+        ctx.ob("%s segments are each quoted and joined with %r%s (the separator the reader splits on)" % (comp, rfc_sep, ", every segment preceded by it" if comp == "path" else ""),
+               bad is None, gfi, shown["node"], detail="`%s`%s" % (txt(shown["slot"], 100), (": " + bad[1]) if bad else ""), construct="get_request_uri: %s composition" % comp)
+        for qname in qnames:
             safe = qf[qname][0]
-            ctx.need(isinstance(safe, str), "safe set of %s does not evaluate to a string" % qname)
             where = "safe set of %s (quoting %s segments)" % (qname, comp)
-            ctx.ob("%s segments are each quoted and joined with %r%s (the separator the reader splits on)" % (comp, rfc_sep, ", every segment preceded by it" if comp == "path" else ""),
-                   bad is None, gfi, node, detail="`%s`%s" % (txt(slot, 100), (": " + bad) if bad else ""), construct="get_request_uri: %s composition" % comp)
             ctx.ob("the %s separator %r is not in the %s" % (comp, rfc_sep, where), rfc_sep not in safe, gfi, qf[qname][1], detail="safe = %r" % safe,
                    construct="%s: %r safe" % (qname, rfc_sep))
             for ch in others:
@@ -1431,3 +1609,22 @@ R.seed("C16.b", F_M, "            raise error.MalformedUrlError(\"Port must be n
 R.seed("C16.b", F_M, "        if not parsed.hostname:\n            raise error.MalformedUrlError(\"CoAP URIs need a hostname\")\n", "        self.opt.uri_path = []\n        if not parsed.hostname:\n            raise error.MalformedUrlError(\"CoAP URIs need a hostname\")\n", "options modified before the host is checked")
 R.seed("C16.e", F_U, "    if port is None:\n        hostinfo = host", "    if not port:\n        hostinfo = host", "port 0 dropped")
 R.seed("C16.e", F_M, "        if \"[\" in hostinfo:\n            (host, port)", "        if hostinfo.startswith(\"[v\"):\n            (host, port)", "only IPvFuture literals normalised")
+
+# seeds for the loop vocabulary of the executor (second hardening pass): each combines a behaviour-preserving respelling
+# (several appends per iteration, conditional appends, a precomputed table, string accumulation) with one fault
+_W_PATH = "        path = \"\".join(\"/\" + _quote_for_path(p) for p in path) or \"/\"\n"
+_W_QUERY = "        query = \"&\".join(_quote_for_query(q) for q in query)\n"
+R.seed("C16.c", F_M, _W_PATH, "        parts = []\n        for p in path:\n            parts.append(_quote_for_path(p))\n            parts.append(\"/\")\n        path = \"\".join(parts) or \"/\"\n",
+       "two appends per iteration, separator after the segment instead of before it")
+R.seed("C16.c", F_M, _W_PATH, "        parts = []\n        for p in path:\n            parts.append(\"/\")\n            parts.append(_quote_for_path(p))\n        path = \"\".join(parts) if len(parts) > 2 else \"/\"\n",
+       "list of parts joined, but a single segment collapses to '/'")
+R.seed("C16.c", F_M, _W_PATH, "        segs = path\n        path = \"\"\n        for p in segs:\n            path += \"/\" + _quote_for_path(p)\n        path = path.rstrip(\"/\") or \"/\"\n",
+       "string accumulation, trailing empty segments stripped from the composed text")
+R.seed("C16.c", F_M, _W_QUERY, "        pieces = []\n        for i, q in enumerate(query):\n            if i > 1:\n                pieces.append(\"&\")\n            pieces.append(_quote_for_query(q))\n        query = \"\".join(pieces)\n",
+       "conditional append of the separator, off by one")
+R.seed("C16.c", F_Q, "    def quote(input_string):\n        encoded = input_string.encode(\"utf8\")\n        return \"\".join(chr(x) if x in safe_set else \"%%%02X\" % x for x in encoded)\n",
+       "    table = []\n    for x in range(256):\n        if x in safe_set:\n            table.append(chr(x))\n        else:\n            table.append(\"%%%02x\" % x)\n\n    def quote(input_string):\n        return \"\".join([table[x] for x in input_string.encode(\"utf8\")])\n",
+       "precomputed 256-entry table with lower-case escapes")
+R.seed("C16.d", F_M, "        is_ip_literal = parsed.netloc.startswith(\"[\") or (\n            parsed.hostname.count(\".\") == 3\n            and all(c in \"0123456789.\" for c in parsed.hostname)\n",
+       "        digits_and_dots = False\n        for c in parsed.hostname:\n            if c in \"0123456789.\":\n                digits_and_dots = True\n        is_ip_literal = parsed.netloc.startswith(\"[\") or (\n            parsed.hostname.count(\".\") == 3\n            and digits_and_dots\n",
+       "flag loop without break: set when SOME character is a digit or dot")
